@@ -1,0 +1,1 @@
+//! Hooks for property C19 (empty until needed).
